@@ -17,7 +17,7 @@ RULE = ("(source key of one of the four curves, batch of 1..6 manager operations
         "Non-trivial: batch of >= 2 operations, or a tz4 (96-byte signature) source, or a counter/amount >= 2^32 that changes the "
         "encoded size. Distinct = distinct case.")
 
-KINDS = ["transaction", "transaction", "transaction", "origination", "delegation", "reveal", "register_global_constant",
+KINDS = ["transaction", "transaction", "transaction", "origination", "delegation", "delegation", "reveal", "register_global_constant",
          "transfer_ticket", "smart_rollup_add_messages", "smart_rollup_execute_outbox_message"]
 
 
@@ -105,6 +105,9 @@ def cases(draw, curves, max_n):
     nat = st.one_of(st.integers(0, 300), st.integers(0, 2 ** 20), st.sampled_from([2 ** 32, 2 ** 62, 2 ** 63 - 1]))
     kinds = [k for k in KINDS if not (k == "reveal" and curve == "BL")]
     contents = [draw(gen_ops.manager_content(kinds=kinds, nat=nat)) for _ in range(n)]
+    for c in contents:  # fields the client fills in besides the numeric ones: '' = "myself" (baker self-registration)
+        if c["kind"] in ("delegation", "origination") and draw(st.integers(0, 2)) == 0:
+            c["delegate"] = ""
     sim = [{"milligas": draw(st.one_of(st.integers(0, 5_000_000), st.integers(0, 1_040_000_000), st.sampled_from([0, 999, 1000, 1001, 1_040_000_000]))),
             "storage": draw(st.sampled_from([0, 0, 1, 67, 257, 4000])), "alloc": draw(st.booleans()),
             "internal": draw(st.lists(st.integers(0, 3_000_000), max_size=2))} for _ in range(n)]
